@@ -658,114 +658,9 @@ func TestVerifC15NodeAlloc(t *testing.T) {
 	run.Floor("redis_setnx_reply_lost_after_apply", 20)
 }
 
-// ---------------------------------------------------------------- lease over time
-
-// TestVerifC15NodeLease: node A allocates its id on a store whose clock the harness
-// controls (miniredis), A's heartbeat goroutine keeps running (real 30 s ticker), A is
-// never released. The store clock is advanced so that the lease written by the
-// allocation (TTL 90 s) has run out unless a heartbeat renewed it, with a heartbeat
-// observed between the advances (no gap between renewals reaches the TTL). Then node B
-// (own storage client) allocates: it must not receive A's id.
-func TestVerifC15NodeLease(t *testing.T) {
-	t.Parallel()
-	vk.Quiet()
-	run := vk.Start(t, "C15", "node-lease")
-	defer run.Finish()
-	run.Rule("scenario = (backend redis / hybrid+shared redis on miniredis, store-clock advances between observed heartbeats: quick 50s,tick,50s; thorough additionally 30s,tick,30s,tick,30s,tick,1s); node A holds its id with a running heartbeat and is never released, then node B allocates; distinct = (backend, timeline)")
-	type timeline struct {
-		name  string
-		steps []time.Duration // advance, then wait for one heartbeat, ... ; last entry is a final advance without waiting
-	}
-	tls := []timeline{{name: "50s,hb,50s", steps: []time.Duration{50 * time.Second, 50 * time.Second}}}
-	if run.Thorough() {
-		tls = append(tls, timeline{name: "30s,hb,30s,hb,30s,hb,1s", steps: []time.Duration{30 * time.Second, 30 * time.Second, 30 * time.Second, time.Second}})
-	}
-	var wg sync.WaitGroup
-	for _, be := range []string{"redis", "hybrid-shared"} {
-		for _, tl := range tls {
-			be, tl := be, tl
-			wg.Add(1)
-			go func() {
-				defer wg.Done()
-				run.Case("node-lease|"+be+"|"+tl.name, nil)
-				var mu sync.Mutex
-				var writes []string
-				beat := make(chan struct{}, 64)
-				leaseKey := NodeIDKeyPrefix + c15nSlot(NodeIDMin)
-				var armed atomic.Bool
-				cl, err := c15nNewCluster(be, 2, &c15nStats{}, func(tier, op, key string) {
-					if key != leaseKey || !armed.Load() {
-						return
-					}
-					mu.Lock()
-					writes = append(writes, tier+"."+op)
-					mu.Unlock()
-					select {
-					case beat <- struct{}{}:
-					default:
-					}
-				}, nil)
-				if err != nil {
-					t.Errorf("c15: lease cluster: %v", err)
-					return
-				}
-				defer cl.close()
-				ctx, cancel := context.WithCancel(context.Background())
-				defer cancel()
-				a := NewNodeIDAllocator(cl.stores[0])
-				idA, err := a.AllocateNodeID(ctx)
-				if err != nil || idA != c15nSlot(NodeIDMin) {
-					t.Errorf("c15: lease: first allocation gave %q, %v", idA, err)
-					return
-				}
-				armed.Store(true)
-				trace := []string{"A.AllocateNodeID -> " + idA}
-				for i, d := range tl.steps {
-					cl.mr.FastForward(d)
-					trace = append(trace, fmt.Sprintf("store clock +%s", d))
-					if i == len(tl.steps)-1 {
-						break
-					}
-					select {
-					case <-beat:
-						run.Count("heartbeats_observed", 1)
-						trace = append(trace, "A heartbeat renewed its lease (observed write completed)")
-					case <-time.After(45 * time.Second):
-						run.Count("watchdog", 1)
-						run.Observe("watchdog_"+be, "no heartbeat write on the lease key within 45 s")
-						return
-					}
-				}
-				b := NewNodeIDAllocator(cl.stores[1])
-				idB, err := b.AllocateNodeID(ctx)
-				trace = append(trace, fmt.Sprintf("B.AllocateNodeID -> %q err=%v", idB, err))
-				run.Eval(1)
-				run.Distinct(be + "|" + tl.name)
-				run.Count("lease_scenarios_decided", 1)
-				mu.Lock()
-				ws := append([]string(nil), writes...)
-				mu.Unlock()
-				run.Sample(map[string]any{"backend": be, "timeline": tl.name, "A": idA, "B": idB, "lease_writes_by_A": ws})
-				if err == nil && idB == idA {
-					run.Violation("C15:node-id-reissued-while-holder-alive|backend="+be, map[string]any{
-						"backend": be, "timeline": tl.name, "trace": trace, "id": idA,
-						"lease_key": leaseKey, "writes_to_lease_key_after_allocation(tier.op)": ws,
-						"note": "A never called Release and its heartbeat goroutine was running; every gap between heartbeats on the store clock was below the 90 s lease TTL",
-					})
-				} else {
-					run.Count("lease_kept", 1)
-				}
-				_ = a.Release()
-				if err == nil {
-					_ = b.Release()
-				}
-			}()
-		}
-	}
-	wg.Wait()
-	run.Floor("lease_scenarios_decided", int64(2*len(tls)))
-	run.Floor("heartbeats_observed", int64(2*len(tls)))
-}
+// The lease-over-time monitor (node-lease) lives in internal/core/idgen's harness
+// (c15_lease_test.go): it only needs this package's exported API and overlaps its real
+// 30 s heartbeat waits with the id-generator monitors there.
 
 // TestVerifC15NodeJanitor — memory store with its janitor running (CleanupExpired in a
 // tight loop on its own goroutine, 20 000 unexpired runtime entries so that a sweep
